@@ -100,7 +100,11 @@ def explore_parallel(scenarios: list[Scenario], bound: int, *, time_cap: float, 
     completed = -1
     # level 0 in the master: it also provides the first-level jobs.
     roots = []
+    root_capped = False
     for sidx, sc in enumerate(scenarios):
+        if time.time() > t_end + 30:
+            root_capped = True   # even the default schedules did not fit into the budget: report it
+            break
         env = execute(sc)
         from kv import explorer
         d0 = env.outcome_digest()
@@ -114,13 +118,14 @@ def explore_parallel(scenarios: list[Scenario], bound: int, *, time_cap: float, 
                                           'choice_points': len(env.points), 'end': env.end_reason,
                                           'labels_head': env.labels[:12]}), d0))
         del env
-    completed = 0
+    completed = 0 if not root_capped else -1
+    total.capped = root_capped
     import gc
     gc.collect()
     gc.freeze()  # forked workers must not touch (and copy) the inherited heap
     final = total
     for b in range(max(1, min_bound), bound + 1):
-        if time.time() > t_end:
+        if time.time() > t_end or root_capped:
             break
         jobs = []
         for sidx, env, d0 in roots:
